@@ -866,6 +866,13 @@ func c09Family(ctx *Ctx) error {
 			}
 		}
 	}
+	// 5c. sizes a generated group does not reach by chance: hundreds of PATH records, EXECVE with hundreds of
+	// arguments, values of several thousand bytes, groups of hundreds of records
+	for _, n := range []int{64, 255, 256, 257, 1025} {
+		for shape := 0; shape < 4 && !stop(); shape++ {
+			add(coGenLarge(rng, n, shape), "large")
+		}
+	}
 	// 6. random groups, edited caches, malformed groups
 	for i := 0; i < ctx.N(6000, 1200000) && !stop(); i++ {
 		switch {
